@@ -40,30 +40,62 @@ def key_is_injective(key: Optional[ast.AST]) -> (bool, str):
     return False, "key %s is not recognised as injective" % unparse(key)
 
 
+def rule_o6(ctx) -> None:
+    """The normal form of a string must not depend on what was compared before: nothing reachable from the comparison
+    mutates a container shared between calls (module level, mutable default, memoised result)."""
+    from . import c06
+
+    roots = [NORM, WC, "synrbl.SynUtils.chem_utils._get_diff_mol"]
+    scope = {q for q in ctx.res.reachable(roots, ctx.graph) if q.startswith("synrbl.SynUtils.")}
+    c06.rule_b4(ctx, scope, "C17-O6", class_level=False)
+
+
 def check(ctx) -> None:
     prog = ctx.prog
     f = prog.func(NORM)
     ctx.rule("C17-O1", "the normal-form sort orders by an injective key (total order on the elements)", 1)
     ctx.rule("C17-O2", "wc_similarity short-circuits to 1 on equal normal forms before any fingerprint code", 3)
+    CANON_Q = "synrbl.SynUtils.chem_utils.canon_smiles"
+    # O6 first: it needs no structural anchor of normalize_smiles
+    rule_o6(ctx)
+    # the normal form may be built by normalize_smiles itself or by a helper it calls (e.g. a memoised per-side helper)
+    family = [f]
+    for c in calls(f):
+        tgt = ctx.res.resolve_callee(c, f)
+        if tgt and tgt[0] == "func" and tgt[1] in prog.functions and tgt[1] not in (NORM, CANON_Q):
+            g = prog.functions[tgt[1]]
+            if g.module is f.module and g not in family and any(isinstance(x, ast.Call) and ((isinstance(x.func, ast.Attribute) and x.func.attr == "sort") or (isinstance(x.func, ast.Name) and x.func.id == "sorted")) for x in own_nodes(g.node)):
+                family.append(g)
+
+    def canonical_elements(g, v) -> bool:
+        """v is a list of normalised components: a comprehension whose element is normalize_smiles(..) / canon_smiles(..)"""
+        if isinstance(v, ast.ListComp) and isinstance(v.elt, ast.Call):
+            if getattr(v.elt.func, "id", "") == f.name:
+                return True
+            tgt = ctx.res.resolve_callee(v.elt, g)
+            return bool(tgt and tgt[0] == "func" and tgt[1] in (NORM, CANON_Q))
+        return False
+
     sorts = []
-    for n in own_nodes(f.node):
-        if isinstance(n, ast.Call):
-            if isinstance(n.func, ast.Attribute) and n.func.attr == "sort":
-                sorts.append(n)
-            elif isinstance(n.func, ast.Name) and n.func.id == "sorted":
-                sorts.append(n)
+    for g in family:
+        for n in own_nodes(g.node):
+            if isinstance(n, ast.Call):
+                if isinstance(n.func, ast.Attribute) and n.func.attr == "sort":
+                    sorts.append((g, n))
+                elif isinstance(n.func, ast.Name) and n.func.id == "sorted":
+                    sorts.append((g, n))
     ctx.require(sorts, "normalize_smiles no longer sorts the components")
-    for n in sorts:
+    for g, n in sorts:
         key = next((k.value for k in n.keywords if k.arg == "key"), None)
         ok, why = key_is_injective(key)
-        ctx.instance("C17-O1", "normalize_smiles: %s" % unparse(n)[:90], f.loc(n), ok=ok, reason=why)
+        ctx.instance("C17-O1", "%s: %s" % (g.name, unparse(n)[:90]), g.loc(n), ok=ok, reason=why)
         if not ok:
-            ctx.finding("C17-O1", "chem_utils.normalize_smiles:sort-key", f.loc(n), "the canonical order of the molecules is not a total order: " + why)
+            ctx.finding("C17-O1", "chem_utils.%s:sort-key" % g.name, g.loc(n), "the canonical order of the molecules is not a total order: " + why)
     # the sorted list is what gets joined: the total order must be on the strings
     # that end up in the normal form, not on something they are derived from
     joins = [n for n in own_nodes(f.node) if isinstance(n, ast.Call) and isinstance(n.func, ast.Attribute) and n.func.attr == "join"]
     ctx.require(joins, "normalize_smiles no longer joins components")
-    for n in sorts:
+    for g, n in sorts:
         lst = None
         if isinstance(n.func, ast.Attribute) and isinstance(n.func.value, ast.Name):
             lst = n.func.value.id
@@ -75,18 +107,23 @@ def check(ctx) -> None:
             continue
         # elements of the sorted list must be the normalised components
         normalised = False
-        for _, v, _i in assignments_to(f, lst):
-            if isinstance(v, ast.ListComp) and isinstance(v.elt, ast.Call) and getattr(v.elt.func, "id", "") == f.name:
+        for _, v, _i in assignments_to(g, lst):
+            if canonical_elements(g, v):
                 normalised = True
             if isinstance(v, ast.Call) and getattr(v.func, "id", "") == "sorted" and v.args and isinstance(v.args[0], ast.Name):
-                for _, v2, _j in assignments_to(f, v.args[0].id):
-                    if isinstance(v2, ast.ListComp) and isinstance(v2.elt, ast.Call) and getattr(v2.elt.func, "id", "") == f.name:
+                for _, v2, _j in assignments_to(g, v.args[0].id):
+                    if canonical_elements(g, v2):
                         normalised = True
-        joined_direct = any(j.args and isinstance(j.args[0], ast.Name) and j.args[0].id == lst for j in joins)
+        if g is f:
+            joined_direct = any(j.args and isinstance(j.args[0], ast.Name) and j.args[0].id == lst for j in joins)
+        else:
+            rets = [r for r in own_nodes(g.node) if isinstance(r, ast.Return)]
+            returns_list = bool(rets) and all(isinstance(r.value, ast.Name) and r.value.id == lst or (isinstance(r.value, ast.Call) and getattr(r.value.func, "id", "") in ("tuple", "list") and r.value.args and isinstance(r.value.args[0], ast.Name) and r.value.args[0].id == lst) for r in rets)
+            joined_direct = returns_list and any(j.args and isinstance(j.args[0], ast.Call) and (ctx.res.resolve_callee(j.args[0], f) or ("", ""))[1] == g.qualname for j in joins)
         ok = normalised and joined_direct
-        ctx.instance("C17-O1", "the sorted list %r holds the normalised components and is joined as it is (normalised=%s, joined directly=%s)" % (lst, normalised, joined_direct), f.loc(n), ok=ok)
+        ctx.instance("C17-O1", "the sorted list %r of %s holds the normalised components and is joined as it is (normalised=%s, joined directly=%s)" % (lst, g.name, normalised, joined_direct), g.loc(n), ok=ok)
         if not ok:
-            ctx.finding("C17-O1", "chem_utils.normalize_smiles:sorted-values", f.loc(n), "the list that is sorted (%r) is not the list of normalised components that is joined: the tie-break then looks at the input spelling instead of the normal form, and two spellings of one reaction can normalise differently" % lst)
+            ctx.finding("C17-O1", "chem_utils.%s:sorted-values" % g.name, g.loc(n), "the list that is sorted (%r) is not the list of normalised components that is joined: the tie-break then looks at the input spelling instead of the normal form, and two spellings of one reaction can normalise differently" % lst)
     # -------------------------------------------------------------- O2
     w = prog.func(WC)
     cfg = CFG(w.node)
@@ -159,15 +196,54 @@ def check(ctx) -> None:
                 txt = unparse(src)
                 sym = unparse(e1.value) in txt and unparse(e2.value) in txt and "!=" in txt
                 why = "index set %s, elements %s / %s" % (txt[:60], unparse(e1), unparse(e2))
+    if len(lists) != 2:
+        # multiset difference: `for s in A: if s in B: B.remove(s) else: D.append(s)` leaves A-B in D and B-A in B
+        for lp in [n for n in own_nodes(gd.node) if isinstance(n, ast.For) and isinstance(n.target, ast.Name) and len(n.body) == 1 and isinstance(n.body[0], ast.If)]:
+            s_, iff = lp.target.id, lp.body[0]
+            nc = normal_compare(iff.test, True)
+            t = iff.test
+            if isinstance(t, ast.Compare) and len(t.ops) == 1 and isinstance(t.ops[0], (ast.In, ast.NotIn)) and isinstance(t.left, ast.Name) and t.left.id == s_ and isinstance(t.comparators[0], ast.Name):
+                other = t.comparators[0].id
+                hit, miss = (iff.body, iff.orelse) if isinstance(t.ops[0], ast.In) else (iff.orelse, iff.body)
+                def only_call(stmts, recv, meth):
+                    return len(stmts) == 1 and isinstance(stmts[0], ast.Expr) and isinstance(stmts[0].value, ast.Call) and isinstance(stmts[0].value.func, ast.Attribute) and stmts[0].value.func.attr == meth and isinstance(stmts[0].value.func.value, ast.Name) and (recv is None or stmts[0].value.func.value.id == recv) and len(stmts[0].value.args) == 1 and isinstance(stmts[0].value.args[0], ast.Name) and stmts[0].value.args[0].id == s_
+                if only_call(hit, other, "remove") and only_call(miss, None, "append"):
+                    coll = miss[0].value.func.value.id
+                    if sorted(joined) == sorted([coll, other]) and coll != other:
+                        sym, why = True, "multiset difference: %s keeps the molecules of %s not matched in %s, which keeps its own unmatched molecules" % (coll, unparse(lp.iter)[:30], other)
     ctx.instance("C17-O3", "_get_diff_mol: %s" % why, gd.loc(), ok=sym)
     if not sym:
         ctx.finding("C17-O3", "chem_utils._get_diff_mol:asymmetric", gd.loc(), "the molecules that differ are not collected symmetrically for the two arguments (%s): wc_similarity(a, b) and wc_similarity(b, a) then compare different molecule sets" % why)
     # O5: every leaf of the recursion is canonicalised
-    ctx.rule("C17-O5", "every return of normalize_smiles is a join of recursive results or the RDKit canonical form of the molecule", 3)
+    ctx.rule("C17-O5", "every return of normalize_smiles is a join of recursive results or the RDKit canonical form of the molecule", 2)
     CANON = "synrbl.SynUtils.chem_utils.canon_smiles"
     cs = prog.func(CANON)
     canon_ok = any(isinstance(c.func, ast.Attribute) and c.func.attr in ("MolToSmiles", "CanonSmiles") for c in calls(cs))
     ctx.require(canon_ok, "canon_smiles no longer produces RDKit SMILES")
+
+    # O7: the canonical form is that of the fully sanitised molecule (a partial sanitisation leaves spelling-dependent
+    # features - hypervalent notations, Kekule rings - in the output for the inputs that need the skipped step)
+    ctx.rule("C17-O7", "canon_smiles sanitises with every RDKit sanitisation step before writing the SMILES", 1)
+    parses = [c for c in calls(cs) if unparse(c.func).split(".")[-1] == "MolFromSmiles"]
+    sanit = [c for c in calls(cs) if unparse(c.func).split(".")[-1] == "SanitizeMol"]
+
+    def restricted(c, pos):
+        ops = next((k.value for k in c.keywords if k.arg == "sanitizeOps"), c.args[pos] if len(c.args) > pos else None)
+        if ops is None:
+            return None
+        return None if unparse(ops).split(".")[-1] == "SANITIZE_ALL" else ops
+
+    full_parse = [c for c in parses if (next((k.value for k in c.keywords if k.arg == "sanitize"), c.args[1] if len(c.args) > 1 else None) is None) or unparse(next((k.value for k in c.keywords if k.arg == "sanitize"), c.args[1] if len(c.args) > 1 else None)) == "True"]
+    ctx.require(parses, "canon_smiles no longer parses with MolFromSmiles")
+    if full_parse and len(full_parse) == len(parses):
+        ctx.instance("C17-O7", "canon_smiles parses with full sanitisation", cs.loc(parses[0]), ok=True)
+    else:
+        ctx.require(sanit, "canon_smiles parses without sanitisation and never calls SanitizeMol")
+        for c in sanit:
+            r_ = restricted(c, 1)
+            ctx.instance("C17-O7", "canon_smiles: %s" % unparse(c)[:70], cs.loc(c), ok=r_ is None)
+            if r_ is not None:
+                ctx.finding("C17-O7", "chem_utils.canon_smiles:partial-sanitisation", cs.loc(c), "canon_smiles sanitises with a restricted set of steps (%s): molecules whose spelling needs a skipped step (nitro as N(=O)=O, azides ...) are written unsanitised, so two spellings of one molecule keep different normal forms" % unparse(r_)[:60])
 
     def recursive(e, busy=frozenset()) -> bool:
         """elements come from recursive calls of normalize_smiles"""
@@ -182,6 +258,16 @@ def check(ctx) -> None:
             return bool(a) and any(recursive(v, b2) for v in direct) and all(recursive(v, b2) or (isinstance(v, ast.Call) and isinstance(v.func, ast.Attribute) and v.func.attr == "split") for _, v, _i in a)
         if isinstance(e, ast.Call) and getattr(e.func, "id", "") in ("sorted", "list") and e.args:
             return recursive(e.args[0], busy)
+        if isinstance(e, ast.Call):
+            tgt = ctx.res.resolve_callee(e, f)
+            g = prog.functions.get(tgt[1]) if tgt and tgt[0] == "func" else None
+            if g is not None and g in family and g is not f:
+                rets = [r for r in own_nodes(g.node) if isinstance(r, ast.Return) and r.value is not None]
+                def from_canon(v):
+                    if isinstance(v, ast.Call) and getattr(v.func, "id", "") in ("tuple", "list", "sorted") and v.args:
+                        v = v.args[0]
+                    return isinstance(v, ast.Name) and any(canonical_elements(g, x) or (isinstance(x, ast.Call) and getattr(x.func, "id", "") == "sorted" and x.args and isinstance(x.args[0], ast.Name) and any(canonical_elements(g, y) for _, y, _k in assignments_to(g, x.args[0].id))) for _, x, _i in assignments_to(g, v.id))
+                return bool(rets) and all(from_canon(r.value) for r in rets)
         return False
 
     for r in [n for n in own_nodes(f.node) if isinstance(n, ast.Return)]:
